@@ -101,15 +101,25 @@ static std::string body_read_render(int slot) {   // W5: read a prepared file, r
         for (;;) { auto g = b.read_generic_qr(end); if (end) break; text += g.string(); } for (;;) { auto g = b.read_generic_aec(end); if (end) break; text += g.string(); } for (;;) { auto g = b.read_generic_mm(end); if (end) break; text += g.string(); } }
     return std::to_string(text.size()) + ":" + std::to_string(fnv(text));
 }
+// isolation-only workloads (not part of the schedule exploration): a file whose maps carry unknown members with nested values, and the same file cut
+// inside such a value (the read fails part-way, inside the skipping of an unknown item)
+static std::string unknown_file, unknown_file_cut;
+static std::string body_read_path(const std::string& path) {
+    std::ifstream f(path, std::ios::binary); std::string text;
+    try { CdnsReader r(f); text += r.m_file_preamble.string(); bool eof = false;
+          for (;;) { CdnsBlockRead b = r.read_block(eof); if (eof) break; text += b.string(); bool end = false; for (;;) { auto g = b.read_generic_qr(end); if (end) break; text += g.string(); } } }
+    catch (std::exception& e) { text += std::string("EXC:") + e.what(); }
+    return std::to_string(text.size()) + ":" + std::to_string(fnv(text));
+}
 static std::string body_blocks(int slot) {   // W6: build blocks directly, copy, serialise (no system call: level 2 / tsan only see it)
     Pools P = make_pools(1000000); BlockParameters bp; CdnsBlock b(bp, 0); for (int i = 0; i < 8; i++) { b.add_question_response_record(rec_of(P, slot, i)); b.add_address_event_count(P.aec[i % 3]); b.add_malformed_message(P.mm[i % 4]); }
     CdnsBlock c(b); c.add_question_response_record(P.qr[3]); std::vector<std::string> outs; { CdnsEncoder e(MemSink{&outs}, CborOutputCompression::NO_COMPRESSION); c.write(e); b.write(e); }
     return std::to_string(outs[0].size()) + ":" + std::to_string(fnv(outs[0]));
 }
-static const int NBODY = 7;
-static const char* BN[] = {"export-fd-plain", "export-fd-gzip", "export-fd-xz", "export-named-plain", "export-named-gzip", "read-render", "blocks-copy"};
+static const int NBODY = 7, NISO = 9;   // bodies 7, 8 exist for the isolation stage only
+static const char* BN[] = {"export-fd-plain", "export-fd-gzip", "export-fd-xz", "export-named-plain", "export-named-gzip", "read-render", "blocks-copy", "read-unknown-members", "read-cut-inside-unknown-member"};
 static std::string run_body(int b, int slot) {
-    switch (b) { case 0: return body_export_fd(slot, 0); case 1: return body_export_fd(slot, 1); case 2: return body_export_fd(slot, 2); case 3: return body_export_named(slot, 0); case 4: return body_export_named(slot, 1); case 5: return body_read_render(slot); default: return body_blocks(slot); }
+    switch (b) { case 0: return body_export_fd(slot, 0); case 1: return body_export_fd(slot, 1); case 2: return body_export_fd(slot, 2); case 3: return body_export_named(slot, 0); case 4: return body_export_named(slot, 1); case 5: return body_read_render(slot); case 7: return body_read_path(unknown_file); case 8: return body_read_path(unknown_file_cut); default: return body_blocks(slot); }
 }
 
 // ------------------------------------------------------------------ one controlled run
@@ -151,7 +161,11 @@ int main(int argc, char** argv) {
     auto done = [&](int rc) { a.finish(total); rm_rf(g_dir); return rc; };
     // the input file of the reading workload is produced in a forked child: until the first workload starts, this process has not executed any library
     // code, so lazily initialised library state is still cold when the free-running pass below starts its threads
-    { prepared_file = g_dir + "/prepared.cdns"; fflush(stdout); fflush(stderr); pid_t p = fork(); if (p == 0) { seeds::Opt o; o.sets = {seeds::PS(3, 1000000, 0, true)}; o.blocks = 3; o.per_block = 2; spit(prepared_file, seeds::make(o)); _exit(0); } int st = 0; waitpid(p, &st, 0); if (!WIFEXITED(st) || WEXITSTATUS(st) != 0) { fprintf(stderr, "could not prepare the input file\n"); return done(2); } }
+    { prepared_file = g_dir + "/prepared.cdns"; fflush(stdout); fflush(stderr); pid_t p = fork(); if (p == 0) { seeds::Opt o; o.sets = {seeds::PS(3, 1000000, 0, true)}; o.blocks = 3; o.per_block = 2; std::string bytes = seeds::make(o); spit(prepared_file, bytes);
+        ref::Node root = ref::parse_exact(bytes); ref::Node val = ref::mk_array({ref::mk_uint(1), ref::mk_array({ref::mk_uint(2), ref::mk_map({ref::mk_uint(1), ref::mk_tstr("MARK-INSIDE-UNKNOWN"), ref::mk_uint(2), ref::mk_array({ref::mk_tstr("deep")})})})});
+        root.kids[1].kids.insert(root.kids[1].kids.begin(), {ref::mk_uint(200), val}); for (auto& blk : root.kids[2].kids) blk.kids.insert(blk.kids.begin(), {ref::mk_uint(200), val});
+        std::string u = ref::encode(root); spit(g_dir + "/unknown.cdns", u); size_t first = u.find("MARK-INSIDE-UNKNOWN"), second = u.find("MARK-INSIDE-UNKNOWN", first + 1); spit(g_dir + "/unknown_cut.cdns", u.substr(0, second + 4));   // cut inside the unknown member of the first block
+        _exit(0); } int st = 0; waitpid(p, &st, 0); if (!WIFEXITED(st) || WEXITSTATUS(st) != 0) { fprintf(stderr, "could not prepare the input file\n"); return done(2); } }
     // sequential reference digests (single thread, no scheduler); slot-dependent content, so compute per (body, slot)
 
 #ifdef TSAN_PASS
@@ -185,6 +199,7 @@ int main(int argc, char** argv) {
     }
 #endif
 
+    unknown_file = g_dir + "/unknown.cdns"; unknown_file_cut = g_dir + "/unknown_cut.cdns";
     std::map<std::pair<int, int>, std::string> refd;
     for (int b = 0; b < NBODY; b++) for (int slot = 0; slot < 3; slot++) { std::string d1 = run_body(b, slot), d2 = run_body(b, slot); if (d1 != d2) { fprintf(stderr, "body %s is not deterministic\n", BN[b]); return done(2); } refd[{b, slot}] = d1; }
 
@@ -196,11 +211,21 @@ int main(int argc, char** argv) {
         }
     };
 
-    if (!a.replay.empty()) { std::string s = slurp(a.replay); std::vector<int> bodies, prefix; int level = 1; if (s.rfind("tsan", 0) == 0) return done(0); if (!parse_prefix(s, bodies, prefix, level)) return done(2); int ei = -1; { size_t z = s.find(";eintr="); if (z != std::string::npos) ei = atoi(s.c_str() + z + 7); } g_eintr_thread = ei >= 0 ? 0 : -1; g_eintr_index = ei;
+    if (!a.replay.empty()) { std::string s = slurp(a.replay); std::vector<int> bodies, prefix; int level = 1; if (s.rfind("tsan", 0) == 0) return done(0);
+        if (s.rfind("isolation", 0) == 0) { int x = 0, y = 0; sscanf(s.c_str(), "isolation;x=%d;y=%d", &x, &y); std::string al, d; { std::thread th([&]() { al = run_body(y, 1); }); th.join(); } { std::thread th([&]() { run_body(x, 0); d = run_body(y, 1); }); th.join(); }
+            if (d != al) total.violation(std::string("sched|instance-isolation|") + BN[y] + "|after-" + BN[x], "differs from a fresh thread", s); return done(total.viol.empty() ? 0 : 1); } if (!parse_prefix(s, bodies, prefix, level)) return done(2); int ei = -1; { size_t z = s.find(";eintr="); if (z != std::string::npos) ei = atoi(s.c_str() + z + 7); } g_eintr_thread = ei >= 0 ? 0 : -1; g_eintr_index = ei;
         Pool rp(1, 120); rp.run(1, [&](uint64_t, Result& R) { RunOut x1 = controlled_run(bodies, prefix, level), x2 = controlled_run(bodies, prefix, level); if (x1.digest != x2.digest) R.violation("sched|HARNESS-nondeterministic-replay", "same schedule, different digests", s); check_run(bodies, prefix, level, x1, R, ei); R.count("traces"); },
                                [&](uint64_t, const std::string& d, Result& R) { R.violation("sched|" + crash_key(d), d.substr(0, 1500), s); }, total); return done(total.viol.empty() ? 0 : 1); }
 
     int level = a.kv.count("level") ? atoi(a.kv["level"].c_str()) : 1;
+    if (level == 1 && a.replay.empty()) {
+        // instance isolation ("the library keeps no shared mutable state"): workload X followed by workload Y on ONE fresh thread; Y must give what it gives on
+        // a thread that did nothing before - also when X failed part-way. State kept per thread is shared between independent instances too.
+        std::map<int, std::string> alone; for (int y = 0; y < NISO; y++) { std::thread th([&]() { alone[y] = run_body(y, 1); }); th.join(); }
+        for (int x = 0; x < NISO; x++) for (int y = 0; y < NISO; y++) { std::string d; std::thread th([&]() { run_body(x, 0); d = run_body(y, 1); }); th.join(); total.count("traces"); total.count("nontrivial"); total.count("isolation_runs");
+            if (d != alone[y]) total.violation(std::string("sched|instance-isolation|") + BN[y] + "|after-" + BN[x], std::string("workload ") + BN[y] + " gives " + d.substr(0, 50) + " on a thread that ran " + BN[x] + " before, but " + alone[y].substr(0, 50) + " on a fresh thread", "isolation;x=" + std::to_string(x) + ";y=" + std::to_string(y)); }
+        total.sample("instance isolation: 81 ordered pairs of 9 workloads, each pair on one fresh thread");
+    }
     struct Task { std::vector<int> bodies; int i0; int eintr = -1; };
     std::vector<Task> tasks;
     if (level == 1) {
